@@ -239,7 +239,6 @@ Proof.
 Qed.
 
 (* ---- dropped MOVE r r: the hypotheses of Asm/Erase.v ---- *)
-Definition flagK (r : reg) : Prop := r = R_OF \/ r = R_ERR.
 
 Lemma flagK_not_call_in : forall c, In c call_in_regs -> ~ flagK c.
 Proof.
